@@ -212,3 +212,400 @@ Proof.
       destruct (updaters cf hd s t v a) as [s1| |]; try reflexivity.
       rewrite U. reflexivity.
 Qed.
+
+(* ---------- reports: one call per node = one call per line ---------- *)
+Lemma report_deleted_app cf hd t l1 l2 : forall s,
+  report_deleted cf hd s t (l1 ++ l2) = bindr (report_deleted cf hd s t l1) (fun s1 => report_deleted cf hd s1 t l2).
+Proof.
+  induction l1 as [|v r IH]; intros s; cbn [app report_deleted bindr]; [reflexivity|].
+  destruct (update_time cf hd s t v (-1)) as [s1| |]; cbn [bindr]; auto.
+Qed.
+
+Lemma report_deleted_repeat cf hd t v : forall m s,
+  report_deleted cf hd s t (repeat v (S m)) = update_time cf hd s t v (- Z.of_nat (S m)).
+Proof.
+  induction m as [|m IH]; intros s.
+  - cbn [repeat report_deleted]. change (- Z.of_nat 1) with (-1).
+    destruct (update_time cf hd s t v (-1)); reflexivity.
+  - change (repeat v (S (S m))) with (v :: repeat v (S m)). cbn [report_deleted].
+    replace (- Z.of_nat (S (S m))) with (-1 + - Z.of_nat (S m)) by lia.
+    rewrite <- update_time_add by lia. unfold bindr.
+    destruct (update_time cf hd s t v (-1)) as [s1| |]; try reflexivity. apply IH.
+Qed.
+
+Lemma feed_app cf hd a b : forall s,
+  feed cf hd s (a ++ b) = bindr (feed cf hd s a) (fun s1 => feed cf hd s1 b).
+Proof.
+  induction a as [|[[c p] d] r IH]; intros s; cbn [app feed bindr]; [reflexivity|].
+  destruct (updaters cf hd s c p d) as [s1| |]; cbn [bindr]; auto.
+Qed.
+
+(* the Updater calls of one updateTime of the tracker = Analysis.update_time *)
+Lemma feed_rep cf hd s t v d : FD.compat t v -> feed cf hd s (FD.rep t v d) = update_time cf hd s t v d.
+Proof.
+  intros Hc. rewrite update_time_updaters. unfold FD.rep. change FM.is_mark with is_mark.
+  destruct (is_mark v) eqn:Ev.
+  - rewrite (Hc Ev), Z.eqb_refl. reflexivity.
+  - destruct (is_mark t); [reflexivity|]. cbn [feed]. destruct (updaters cf hd s t v d); reflexivity.
+Qed.
+
+(* the deletion loop: the calls made node by node are the calls the array model makes line by line *)
+Lemma feed_rep_list cf hd t P Q : P < Q -> forall rest ck cv s,
+  FS.inc ck rest -> FL.first_gt P rest -> Q <= FM.klast ck rest -> FD.compat_list t Q (ck, cv) rest ->
+  feed cf hd s (FD.rep_list t P Q (ck, cv) rest) =
+  report_deleted cf hd s t (map (FN.vfrom cv rest) (FR.zseq (Z.max ck P) (Z.to_nat (Q - Z.max ck P)))).
+Proof.
+  intros HPQ. induction rest as [|[nk nv] rest IH]; intros ck cv s Hinc Hgt Hk Hc.
+  - cbn in Hk. replace (Z.to_nat (Q - Z.max ck P)) with 0%nat by lia. reflexivity.
+  - destruct Hinc as [Hn Hinc]. cbn [FL.first_gt] in Hgt. cbn [FM.klast] in Hk.
+    cbn [FD.rep_list FD.compat_list fst snd] in *.
+    destruct (Z.ltb_spec ck Q) as [Hlt|Hge].
+    + destruct Hc as [Hcv Hc].
+      set (a := Z.max ck P). assert (Ha : a < nk) by (unfold a; lia).
+      set (m := Z.min nk Q - a). assert (Hm : 0 < m) by (unfold m, a; lia).
+      rewrite feed_app, (feed_rep cf hd s t cv (- m) Hcv).
+      replace (Z.to_nat (Q - a)) with (Z.to_nat m + Z.to_nat (Q - Z.min nk Q))%nat by (unfold m; lia).
+      rewrite FR.zseq_app, map_app, report_deleted_app.
+      rewrite (FR.map_zseq_const cv a (Z.to_nat m)).
+      2:{ intros i Hi. cbn [FN.vfrom]. destruct (Z.ltb_spec i nk); [reflexivity|exfalso; unfold m in *; lia]. }
+      destruct (Z.to_nat m) as [|m'] eqn:Em; [exfalso; lia|].
+      rewrite report_deleted_repeat. replace (- Z.of_nat (S m')) with (- m) by lia.
+      unfold bindr. destruct (update_time cf hd s t cv (- m)) as [s1| |]; try reflexivity.
+      replace (a + Z.of_nat (S m')) with (Z.min nk Q) by (unfold m in *; lia).
+      destruct (Z.ltb_spec nk Q) as [HnQ|HnQ].
+      * replace (Z.min nk Q) with nk by lia.
+        rewrite (FR.map_zseq_ext (FN.vfrom cv ((nk, nv) :: rest)) (FN.vfrom nv rest) nk).
+        2:{ intros i Hi. cbn [FN.vfrom]. destruct (Z.ltb_spec i nk); [exfalso; lia|reflexivity]. }
+        rewrite (IH nk nv s1 Hinc).
+        -- replace (Z.max nk P) with nk by lia. reflexivity.
+        -- destruct rest as [|[k2 v2] r2]; cbn in *; auto. lia.
+        -- exact Hk.
+        -- exact Hc.
+      * replace (Z.to_nat (Q - Z.min nk Q)) with 0%nat by lia. cbn [FR.zseq seq map report_deleted].
+        destruct rest as [|nxt rest']; cbn [FD.rep_list]; [reflexivity|].
+        cbn [fst]. replace (nk <? Q) with false by (symmetry; apply Z.ltb_ge; lia). reflexivity.
+    + replace (Z.to_nat (Q - Z.max ck P)) with 0%nat by lia. reflexivity.
+Qed.
+
+(* all Updater calls of one File.Update, against the array model's calls *)
+Lemma feed_upd_reports cf hd sh t P ins del s :
+  FS.WF s -> FR.in_range s t P ins del -> (ins <> 0 \/ del <> 0) -> FR.compat_lines s t P del ->
+  feed cf hd sh (FR.upd_reports t P ins del s) =
+  bindr (if 0 <? ins then update_time cf hd sh t t ins else Ok sh)
+        (fun s1 => report_deleted cf hd s1 t (firstn (Z.to_nat del) (skipn (Z.to_nat P) (FS.flatten s)))).
+Proof.
+  intros HWF0 Hr Hne Hc. pose proof (FV.WF_WF2 _ HWF0) as HWF.
+  destruct Hr as (Ht & HP & Hi & Hd & Hlen & H32).
+  unfold FR.upd_reports. rewrite feed_app.
+  assert (Hins : feed cf hd sh (if ins >? 0 then FD.rep t t ins else []) =
+                 (if 0 <? ins then update_time cf hd sh t t ins else Ok sh)).
+  { rewrite Z.gtb_ltb. destruct (0 <? ins); [|reflexivity]. apply feed_rep. intros _. reflexivity. }
+  rewrite Hins. unfold bindr.
+  destruct (if 0 <? ins then update_time cf hd sh t t ins else Ok sh) as [s1| |]; try reflexivity.
+  (* the deleted lines *)
+  rewrite (FR.flatten_tab s HWF), FQ.firstn_skipn_tab by lia.
+  destruct (Z.eqb_spec del 0) as [Ed|Nd].
+  { subst del. reflexivity. }
+  destruct HWF as (Hinc & Hend & v0 & r & Es). subst s.
+  destruct (FL.find_le_spec r (0, v0) [] P ltac:(cbn; lia)) as (L & [ok ov] & R & Ef & Es & Hok & Hgt).
+  change ([] ++ L) with L in Ef. cbn [fst] in Hok. rewrite Ef.
+  rewrite Es in *. destruct (FV.inc_decomp _ _ _ Hinc) as (HL & HLo & HR). cbn [fst] in *.
+  assert (HQ : P + del <= FM.klast ok R).
+  { unfold FL.slen in Hlen. rewrite FN.klast_app in Hlen. exact Hlen. }
+  assert (Hcl : FD.compat_list t (P + del) (ok, ov) R) by (apply (FR.compat_lines_list L); auto; lia).
+  rewrite (feed_rep_list cf hd t P (P + del) ltac:(lia) R ok ov s1 HR Hgt HQ Hcl).
+  replace (Z.max ok P) with P by lia. replace (P + del - P) with del by lia.
+  f_equal. apply FR.map_zseq_ext. intros i Hi'. rewrite FV.sval_L_cons by exact Hinc.
+  destruct (Z.ltb_spec i (FM.klast (-1) L)); [exfalso; lia|].
+  destruct (Z.ltb_spec i ok); [exfalso; lia|reflexivity].
+Qed.
+
+(* a deleted line carrying the merge mark with another tick makes the array model fail too *)
+Lemma report_deleted_marks cf hd t : forall vs s s', report_deleted cf hd s t vs = Ok s' ->
+  forall v, In v vs -> is_mark v = true -> v = t.
+Proof.
+  induction vs as [|x r IH]; intros s s' E v Hin Hm; [destruct Hin|].
+  cbn [report_deleted] in E. destruct (update_time cf hd s t x (-1)) as [s1| |] eqn:E1; try discriminate.
+  destruct Hin as [->|Hin]; [|eapply IH; eauto].
+  rewrite update_time_updaters, Hm in E1. destruct (Z.eqb_spec t v); [congruence|discriminate].
+Qed.
+
+Lemma vals_ok_arr_update t pos ins del a :
+  0 <= t <= FM.MaxU32 -> vals_ok a -> vals_ok (FS.arr_update t pos ins del a).
+Proof.
+  intros Ht Ha. unfold vals_ok, FS.arr_update in *. rewrite Forall_forall in *. intros v Hv.
+  apply in_app_or in Hv. destruct Hv as [Hv|Hv]; [apply Ha; eapply In_firstn; eauto|].
+  apply in_app_or in Hv. destruct Hv as [Hv|Hv]; [apply repeat_spec in Hv; subst; exact Ht|].
+  apply Ha. eapply In_skipn'; eauto.
+Qed.
+
+(* ---------- File.Update: the tracker and the array agree ---------- *)
+Definition file_rel (x : tfile * shared) (y : file * shared) : Prop :=
+  tf_ok (fst x) /\ flat_file (fst x) = fst y /\ snd x = snd y.
+
+Lemma tr_update_nonempty cf ns hd sh t pos ins del :
+  FS.WF ns -> vals_ok (FS.flatten ns) -> 0 <= t < FM.MaxU32 ->
+  Z.of_nat (length (FS.flatten ns)) + ins <= FM.MaxU32 ->
+  0 <= pos -> 0 <= ins -> 0 <= del -> (ins <> 0 \/ del <> 0) ->
+  rel_res file_rel
+    match FM.update t pos ins del ns with
+    | FM.Ok (ns', ds) => match feed cf hd sh ds with
+                         | Ok s' => Ok (mkTFile ns' hd, s') | Panic c => Panic c | Err c => Err c end
+    | FM.Panic c => Panic (cls c)
+    end
+    (if (Z.of_nat (length (FS.flatten ns)) <? pos) || (Z.of_nat (length (FS.flatten ns)) <? pos + del)
+     then Panic POther
+     else match (if 0 <? ins then update_time cf hd sh t t ins else Ok sh) with
+          | Ok s1 =>
+              match report_deleted cf hd s1 t (firstn (Z.to_nat del) (skipn (Z.to_nat pos) (FS.flatten ns))) with
+              | Ok s2 => Ok (mkFile (firstn (Z.to_nat pos) (FS.flatten ns) ++ repeat t (Z.to_nat ins) ++
+                                     skipn (Z.to_nat (pos + del)) (FS.flatten ns)) hd, s2)
+              | Panic c => Panic c
+              | Err c => Err c
+              end
+          | Panic c => Panic c
+          | Err c => Err c
+          end).
+Proof.
+  intros HWF Hvals Ht Hbud Hp Hi Hd Hne.
+  pose proof (FV.WF_WF2 _ HWF) as HWF2.
+  assert (Hs32 : FL.slen ns <= FM.MaxU32) by (destruct HWF as (_ & _ & _ & H0); exact H0).
+  pose proof (FJ.alen_flatten ns HWF2) as Hal. unfold FS.alen in Hal.
+  set (n := Z.of_nat (length (FS.flatten ns))) in *.
+  destruct ((n <? pos) || (n <? pos + del)) eqn:Eout.
+  - (* out of range: both panic *)
+    assert (Hcond : n < pos \/ n < pos + del).
+    { apply orb_prop in Eout. destruct Eout as [E|E]; apply Z.ltb_lt in E; auto. }
+    destruct (FQ.update_rejects_prop t pos ins del ns HWF) as (c & Ec).
+    { do 8 right. split; [exact Hne|]. rewrite FV.len_slen, <- Hal. exact Hcond. }
+    rewrite Ec. exact I.
+  - apply orb_false_elim in Eout. destruct Eout as [E1 E2]. apply Z.ltb_ge in E1, E2.
+    assert (Hrb : FS.in_rangeb t pos ins del (FS.flatten ns) = true).
+    { unfold FS.in_rangeb, FS.alen. fold n. rewrite !andb_true_iff, !Z.leb_le, Z.ltb_lt. lia. }
+    assert (Hrange : FR.in_range ns t pos ins del) by (apply FQ.in_rangeb_range; auto).
+    destruct (FS.mark_okb t pos del (FS.flatten ns)) eqn:Emk.
+    + (* a valid request: the C03 refinement theorem *)
+      assert (Hc : FR.compat_lines ns t pos del).
+      { apply FQ.mark_okb_lines; auto. rewrite <- Hal. fold n. lia. }
+      destruct (FR.update_refines t pos ins del ns HWF Hrange Hne Hc) as (ns' & E & W & Hl & Hf).
+      rewrite E, (feed_upd_reports cf hd sh t pos ins del ns HWF Hrange Hne Hc). unfold bindr.
+      destruct (if 0 <? ins then update_time cf hd sh t t ins else Ok sh) as [s1| |]; try exact I.
+      destruct (report_deleted cf hd s1 t _) as [s2| |]; try exact I.
+      cbn [rel_res]. unfold file_rel, tf_ok, flat_file. cbn [fst snd tf_nodes tf_hist].
+      split; [split; [exact W|]|split; [|reflexivity]].
+      * rewrite Hf. apply vals_ok_arr_update; [lia|exact Hvals].
+      * rewrite Hf. reflexivity.
+    + (* a deleted line carries the mark with another tick: both fail *)
+      destruct (FQ.update_mark_conflict t pos ins del ns HWF Hrb Emk) as (c & Ec). rewrite Ec.
+      destruct (if 0 <? ins then update_time cf hd sh t t ins else Ok sh) as [s1| |]; try exact I.
+      destruct (report_deleted cf hd s1 t _) as [s2| |] eqn:Er; try exact I.
+      exfalso. pose proof (report_deleted_marks cf hd t _ _ _ Er) as Hm.
+      unfold FS.mark_okb in Emk. apply not_true_iff_false in Emk. apply Emk. apply forallb_forall.
+      intros v Hv. change FM.is_mark with is_mark. destruct (is_mark v) eqn:Ev; [|reflexivity].
+      cbn [negb orb]. apply Z.eqb_eq. apply Hm; auto.
+Qed.
+
+Theorem tr_update_agree cf f sh t pos ins del :
+  tf_ok f -> 0 <= t < FM.MaxU32 ->
+  FS.alen (FS.flatten (tf_nodes f)) + ins <= FM.MaxU32 ->
+  (pos <= FM.MaxU32 \/ ins <> 0 \/ del <> 0) ->
+  rel_res file_rel (tr_update cf f sh t pos ins del) (arr_update cf (flat_file f) sh t pos ins del).
+Proof.
+  intros [HWF Hvals] Ht Hbud Hpos. destruct f as [ns hd]. cbn [tf_nodes tf_hist] in *.
+  pose proof (FV.WF_WF2 _ HWF) as HWF2.
+  assert (Hs32 : FL.slen ns <= FM.MaxU32) by (destruct HWF as (_ & _ & _ & H0); exact H0).
+  pose proof (FJ.alen_flatten ns HWF2) as Hal. unfold FS.alen in Hal, Hbud.
+  unfold tr_update, arr_update, flat_file. cbn [tf_nodes tf_hist f_vals f_hist].
+  (* a request the array model rejects is rejected by the tracker *)
+  assert (Hrej : forall y : result (file * shared),
+            (t < 0 \/ FM.MaxU32 <= t \/ pos < 0 \/ FM.MaxU32 < pos \/ ins < 0 \/ del < 0 \/ FM.MaxU32 < ins \/ FM.MaxU32 < del \/
+             ((ins <> 0 \/ del <> 0) /\ (FM.len ns < pos \/ FM.len ns < pos + del))) ->
+            (forall v, y <> Ok v) ->
+            rel_res file_rel
+              match FM.update t pos ins del ns with
+              | FM.Ok (ns', ds) => match feed cf hd sh ds with
+                                   | Ok s' => Ok (mkTFile ns' hd, s') | Panic c => Panic c | Err c => Err c end
+              | FM.Panic c => Panic (cls c)
+              end y).
+  { intros y Hcond Hy. destruct (FQ.update_rejects_prop t pos ins del ns HWF Hcond) as (c & Ec). rewrite Ec.
+    destruct y; cbn; auto. exfalso. eapply Hy; reflexivity. }
+  destruct (Z.ltb_spec pos 0) as [Hp|Hp]; [apply Hrej; [lia|discriminate]|].
+  destruct (Z.ltb_spec ins 0) as [Hi|Hi]; [apply Hrej; [lia|discriminate]|].
+  destruct (Z.ltb_spec del 0) as [Hd|Hd]; [apply Hrej; [lia|discriminate]|]. cbn [orb].
+  destruct (Z.eqb_spec ins 0) as [Ei|Ni]; [destruct (Z.eqb_spec del 0) as [Ed|Nd]|]; cbn [andb].
+  - (* the empty request *)
+    subst ins del. rewrite FJ.update_noop by lia. cbn [feed]. cbn [rel_res]. unfold file_rel, tf_ok, flat_file.
+    cbn [fst snd tf_nodes tf_hist]. auto.
+  - apply (tr_update_nonempty cf ns hd sh t pos ins del); auto.
+  - apply (tr_update_nonempty cf ns hd sh t pos ins del); auto.
+Qed.
+
+(* ---------- NewFile ---------- *)
+Theorem tr_new_agree cf hd sh t n :
+  0 <= t <= FM.MaxU32 -> 0 <= n <= FM.MaxU32 ->
+  rel_res file_rel (tr_new cf hd sh t n)
+    (match update_time cf hd sh t t n with
+     | Ok s2 => Ok (mkFile (repeat t (Z.to_nat n)) hd, s2)
+     | Panic c => Panic c
+     | Err c => Err c
+     end).
+Proof.
+  intros Ht Hn. unfold tr_new.
+  destruct (FQ.new_file_spec t n Ht Hn) as (s & E & W & Hf & Hl). rewrite E.
+  rewrite (feed_rep cf hd sh t t n) by (intros _; reflexivity).
+  destruct (update_time cf hd sh t t n) as [s2| |]; try exact I.
+  cbn [rel_res]. unfold file_rel, tf_ok, flat_file. cbn [fst snd tf_nodes tf_hist].
+  rewrite Hf. split; [split; [exact W|]|split; reflexivity].
+  unfold vals_ok. apply Forall_forall. intros v Hv. apply repeat_spec in Hv. subst. exact Ht.
+Qed.
+
+(* ---------- the loop of handleModification over a tracker ---------- *)
+(* identical to Analysis.hm_loop with tr_update in the place of arr_update *)
+Fixpoint thm_loop (cf : cfg) (t : Z) (diffs : list (dop * Z)) (pos : Z) (pending : dop * Z)
+         (f : tfile) (s : shared) : result (tfile * shared) :=
+  let apply (e : dop * Z) (pos : Z) : result (tfile * shared * Z) :=
+    match fst e with
+    | DIns => match tr_update cf f s t pos (snd e) 0 with
+              | Ok (f', s') => Ok (f', s', pos + snd e)
+              | Panic c => Panic c | Err c => Err c
+              end
+    | _ => match tr_update cf f s t pos 0 (snd e) with
+           | Ok (f', s') => Ok (f', s', pos)
+           | Panic c => Panic c | Err c => Err c
+           end
+    end in
+  match diffs with
+  | [] =>
+      if 0 <? snd pending then
+        match apply pending pos with
+        | Ok (f', s', _) => Ok (f', s')
+        | Panic c => Panic c | Err c => Err c
+        end
+      else Ok (f, s)
+  | (DEq, len) :: rest =>
+      if 0 <? snd pending then
+        match apply pending pos with
+        | Ok (f', s', pos') => thm_loop cf t rest (pos' + len) (DEq, 0) f' s'
+        | Panic c => Panic c | Err c => Err c
+        end
+      else thm_loop cf t rest (pos + len) pending f s
+  | (DIns, len) :: rest =>
+      if 0 <? snd pending then
+        match fst pending with
+        | DIns => Err POther
+        | _ => match tr_update cf f s t pos len (snd pending) with
+               | Ok (f', s') => thm_loop cf t rest (pos + len) (DEq, 0) f' s'
+               | Panic c => Panic c | Err c => Err c
+               end
+        end
+      else thm_loop cf t rest pos (DIns, len) f s
+  | (DDel, len) :: rest =>
+      if 0 <? snd pending then Err POther
+      else thm_loop cf t rest pos (DDel, len) f s
+  end.
+
+(* the lines a script may still insert: the uint32 budget of handleModification *)
+Definition ins_of (e : dop * Z) : Z := match fst e with DIns => Z.max 0 (snd e) | _ => 0 end.
+Definition ins_total (diffs : list (dop * Z)) : Z := sum_z (map ins_of diffs).
+
+Lemma ins_total_nonneg diffs : 0 <= ins_total diffs.
+Proof.
+  unfold ins_total. induction diffs as [|[o l] r IH]; cbn [map]; [cbn; lia|]. rewrite sum_z_cons.
+  unfold ins_of at 1. cbn [fst snd]. destruct o; lia.
+Qed.
+
+Lemma flat_len f f' : flat_file f = f' -> Z.of_nat (length (f_vals f')) = FS.alen (FS.flatten (tf_nodes f)).
+Proof. intros <-. reflexivity. Qed.
+
+Lemma alen_arr_update t pos ins del a : 0 <= pos -> 0 <= ins -> 0 <= del -> pos + del <= FS.alen a ->
+  FS.alen (FS.arr_update t pos ins del a) = FS.alen a + ins - del.
+Proof.
+  intros Hp Hi Hd Hr. unfold FS.alen, FS.arr_update in *.
+  rewrite !app_length, firstn_length, repeat_length, skipn_length. lia.
+Qed.
+
+(* length after a successful array edit *)
+Lemma arr_update_len cf f s t pos ins del f' s' :
+  arr_update cf f s t pos ins del = Ok (f', s') ->
+  Z.of_nat (length (f_vals f')) = Z.of_nat (length (f_vals f)) + ins - del /\ 0 <= ins /\ 0 <= del.
+Proof.
+  unfold arr_update. intros E.
+  destruct ((pos <? 0) || (ins <? 0) || (del <? 0)) eqn:G; [discriminate|].
+  apply orb_false_elim in G. destruct G as [G G3]. apply orb_false_elim in G. destruct G as [G1 G2].
+  apply Z.ltb_ge in G1, G2, G3.
+  destruct ((ins =? 0) && (del =? 0)) eqn:Ez.
+  { apply andb_prop in Ez. destruct Ez as [E1 E2]. apply Z.eqb_eq in E1, E2. inversion E; subst. lia. }
+  destruct ((Z.of_nat (length (f_vals f)) <? pos) || (Z.of_nat (length (f_vals f)) <? pos + del)) eqn:R; [discriminate|].
+  apply orb_false_elim in R. destruct R as [R1 R2]. apply Z.ltb_ge in R1, R2.
+  destruct (if 0 <? ins then update_time cf (f_hist f) s t t ins else Ok s) as [s1| |]; try discriminate.
+  destruct (report_deleted cf (f_hist f) s1 t _) as [s2| |]; try discriminate.
+  inversion E; subst. cbn [f_vals].
+  rewrite !app_length, firstn_length, repeat_length, skipn_length. lia.
+Qed.
+
+Theorem thm_loop_agree cf t : 0 <= t < FM.MaxU32 -> forall diffs pos pending f sh,
+  tf_ok f ->
+  FS.alen (FS.flatten (tf_nodes f)) + ins_of pending + ins_total diffs <= FM.MaxU32 ->
+  rel_res file_rel (thm_loop cf t diffs pos pending f sh) (hm_loop cf t diffs pos pending (flat_file f) sh).
+Proof.
+  intros Ht. induction diffs as [|[o len] rest IH]; intros pos pending f sh Hok Hbud.
+  - (* end of the script *)
+    cbn [thm_loop hm_loop]. destruct (Z.ltb_spec 0 (snd pending)) as [Hp|Hp].
+    2:{ cbn [rel_res]. unfold file_rel. auto. }
+    unfold ins_total in Hbud. cbn [map] in Hbud. change (sum_z []) with 0 in Hbud.
+    destruct pending as [po pl]. cbn [fst snd] in *. unfold ins_of in Hbud. cbn [fst snd] in Hbud.
+    destruct po.
+    + pose proof (tr_update_agree cf f sh t pos 0 pl Hok Ht ltac:(lia) ltac:(lia)) as A.
+      destruct (tr_update cf f sh t pos 0 pl) as [[f1 s1]| |], (arr_update cf (flat_file f) sh t pos 0 pl) as [[g1 u1]| |];
+        cbn [rel_res] in *; auto.
+    + pose proof (tr_update_agree cf f sh t pos pl 0 Hok Ht ltac:(lia) ltac:(lia)) as A.
+      destruct (tr_update cf f sh t pos pl 0) as [[f1 s1]| |], (arr_update cf (flat_file f) sh t pos pl 0) as [[g1 u1]| |];
+        cbn [rel_res] in *; auto.
+    + pose proof (tr_update_agree cf f sh t pos 0 pl Hok Ht ltac:(lia) ltac:(lia)) as A.
+      destruct (tr_update cf f sh t pos 0 pl) as [[f1 s1]| |], (arr_update cf (flat_file f) sh t pos 0 pl) as [[g1 u1]| |];
+        cbn [rel_res] in *; auto.
+  - pose proof (ins_total_nonneg rest) as Hnn.
+    assert (Hcons : ins_total ((o, len) :: rest) = ins_of (o, len) + ins_total rest) by reflexivity.
+    rewrite Hcons in Hbud.
+    destruct pending as [po pl]. unfold ins_of in Hbud. cbn [fst snd] in Hbud.
+    assert (Step : forall i d, i + 0 <= ins_of (po, pl) + ins_of (o, len) -> (i <> 0 \/ d <> 0) ->
+              forall pos', rel_res file_rel
+                match tr_update cf f sh t pos i d with
+                | Ok (f', s') => thm_loop cf t rest pos' (DEq, 0) f' s' | Panic c => Panic c | Err c => Err c end
+                match arr_update cf (flat_file f) sh t pos i d with
+                | Ok (f', s') => hm_loop cf t rest pos' (DEq, 0) f' s' | Panic c => Panic c | Err c => Err c end).
+    { intros i d Hi Hne pos'. unfold ins_of in Hi. cbn [fst snd] in Hi.
+      assert (Hb1 : FS.alen (FS.flatten (tf_nodes f)) + i <= FM.MaxU32) by (destruct po, o; lia).
+      pose proof (tr_update_agree cf f sh t pos i d Hok Ht Hb1 (or_intror Hne)) as A.
+      destruct (tr_update cf f sh t pos i d) as [[f1 s1]| |], (arr_update cf (flat_file f) sh t pos i d) as [[g1 u1]| |] eqn:EA;
+        cbn [rel_res] in *; auto; try contradiction.
+      unfold file_rel in A. cbn [fst snd] in A. destruct A as (Hok1 & Hf1 & Hs1). subst g1 u1.
+      destruct (arr_update_len _ _ _ _ _ _ _ _ _ EA) as (HL & Hl0 & Hl1). cbn [flat_file f_vals] in HL.
+      apply IH; [exact Hok1|]. unfold FS.alen, ins_of in *. cbn [fst snd] in *. destruct po, o; lia. }
+    destruct o; cbn [thm_loop hm_loop fst snd].
+    + (* DEq *)
+      destruct (Z.ltb_spec 0 pl) as [Hp|Hp].
+      2:{ apply IH; [exact Hok|]. unfold ins_of in *. cbn [fst snd] in *. destruct po; lia. }
+      destruct po.
+      * pose proof (Step 0 pl ltac:(unfold ins_of; cbn [fst snd]; lia) ltac:(lia)) as S1.
+        specialize (S1 (pos + len)).
+        destruct (tr_update cf f sh t pos 0 pl) as [[f1 s1]| |], (arr_update cf (flat_file f) sh t pos 0 pl) as [[g1 u1]| |];
+          cbn [rel_res] in *; auto.
+      * pose proof (Step pl 0 ltac:(unfold ins_of; cbn [fst snd]; lia) ltac:(lia)) as S1.
+        specialize (S1 (pos + pl + len)).
+        destruct (tr_update cf f sh t pos pl 0) as [[f1 s1]| |], (arr_update cf (flat_file f) sh t pos pl 0) as [[g1 u1]| |];
+          cbn [rel_res] in *; auto.
+      * pose proof (Step 0 pl ltac:(unfold ins_of; cbn [fst snd]; lia) ltac:(lia)) as S1.
+        specialize (S1 (pos + len)).
+        destruct (tr_update cf f sh t pos 0 pl) as [[f1 s1]| |], (arr_update cf (flat_file f) sh t pos 0 pl) as [[g1 u1]| |];
+          cbn [rel_res] in *; auto.
+    + (* DIns *)
+      destruct (Z.ltb_spec 0 pl) as [Hp|Hp].
+      2:{ apply IH; [exact Hok|]. unfold ins_of in *. cbn [fst snd] in *. destruct po; lia. }
+      destruct po; [|exact I|].
+      * apply Step; [unfold ins_of; cbn [fst snd]; lia|lia].
+      * apply Step; [unfold ins_of; cbn [fst snd]; lia|lia].
+    + (* DDel *)
+      destruct (Z.ltb_spec 0 pl) as [Hp|Hp]; [exact I|].
+      apply IH; [exact Hok|]. unfold ins_of in *. cbn [fst snd] in *. destruct po; lia.
+Qed.
